@@ -430,3 +430,26 @@ Proof.
   - destruct (j_length jf) as [l|]; [|discriminate]. intros H _. inversion H; subst. exists l. split; reflexivity.
   - intros H Hf. inversion H; subst. cbn in Hf. discriminate.
 Qed.
+
+(** the member-wise text, with the presence rules written out *)
+Lemma frame_json_text_unfold f :
+  frame_json_text f =
+  bytes "{""id"":" ++ itoa (f_id f)
+  ++ (if negb (f_remote f) && (0 <? f_len f)
+      then bytes ",""data"":""" ++ hex_encode (firstn (Z.to_nat (f_len f)) (f_data f)) ++ bytes """" else [])
+  ++ (if f_ext f then bytes ",""extended"":true" else [])
+  ++ (if f_remote f then bytes ",""remote"":true" ++ bytes ",""length"":" ++ itoa (f_len f) else [])
+  ++ bytes "}".
+Proof.
+  unfold frame_json_text, json_text, data_member, length_member.
+  destruct (negb (f_remote f) && (0 <? f_len f)), (f_remote f); reflexivity.
+Qed.
+
+Lemma frame_jframe_unfold f :
+  frame_jframe f =
+  mkJ (f_id f)
+      (if negb (f_remote f) && (0 <? f_len f) then Some (hex_encode (firstn (Z.to_nat (f_len f)) (f_data f))) else None)
+      (if f_remote f then Some (f_len f) else None)
+      (if f_ext f then Some true else None)
+      (if f_remote f then Some true else None).
+Proof. reflexivity. Qed.
